@@ -1330,3 +1330,48 @@ def oracle_C17(cmds, impl, model, stats: Stats):
 
 
 ORACLES["C17"] = oracle_C17
+
+
+# ------------------------------------------------------------------------------ C09
+def oracle_C09(cmds, impl, model, stats: Stats):
+    ctx = Ctx(cmds, impl, model)
+    stats.corr_diffs = getattr(stats, "corr_diffs", []) + sql_correspondence(ctx, stats, cmds)
+    out = []
+    seen_rows: dict[str, str] = {}
+    for k, c in enumerate(ctx.cmds):
+        il = impl[k]
+        if c[0] == "hash" and il.startswith("ok "):
+            stats.note(cmds[k] + il, c[1] != c[2], "hash:" + ("twins" if c[1] != c[2] else "self"))
+            if field(il, "hashable") != "T":
+                m = ctx.meta.get(c[1])
+                out.append(Violation("C09", "relation-not-hashable", f"{cmds[k]}: {m['tree_text'] if m else ''}"))
+                continue
+            if field(il, "equal") != "T" or field(il, "samehash") != "T":
+                ma, mb = ctx.meta.get(c[1]), ctx.meta.get(c[2])
+                if ma and mb and strip_marks(ma["tree_text"]) == strip_marks(mb["tree_text"]):
+                    out.append(Violation("C09", "rebuilt-relation-not-equal-or-hash-differs",
+                                         f"{cmds[k]}: {il}; {ma['tree_text']}"))
+        if c[0] == "snap" and il.startswith("ok changed="):
+            changed = il[len("ok changed=["):-1]
+            stats.note(cmds[max(0, k - 1)], True, "snap:" + ("changed" if changed else "unchanged"),
+                       "after:" + ctx.cmds[max(0, k - 1)][0])
+            if changed:
+                out.append(Violation("C09", "existing-relation-changed:" + ctx.cmds[max(0, k - 1)][0],
+                                     f"after {cmds[max(0, k - 1)]}: relations {changed} changed structure/bounds/str/hash/"
+                                     f"leaf payload"))
+        if c[0] == "sqlexec" and il.startswith("ok rows0"):
+            if field(il, "sqlsame") != "T":
+                out.append(Violation("C09", "compiling-twice-gives-different-sql", f"{cmds[k]}"))
+            if model[k].startswith("ok ") and field(model[k], "det") == "T":
+                key = "sql:" + c[1]
+                rows = str(_ms(field(il, "rows0")))
+                if key in seen_rows and seen_rows[key] != rows:
+                    out.append(Violation("C09", "executing-twice-gives-different-rows", f"{cmds[k]}"))
+                seen_rows[key] = rows
+        if c[0] == "exec" and il.startswith("ok rows"):
+            if field(il, "again") != "same":
+                out.append(Violation("C09", "iterating-twice-gives-different-rows", f"{cmds[k]}"))
+    return out
+
+
+ORACLES["C09"] = oracle_C09
